@@ -15,7 +15,7 @@ META = {
                   "their languages under re.match / re.search semantics are proved equal (z3 regex theory, unbounded string length) "
                   "to 'classes[0-9]*\\.dex' resp. the same language; get_files/get_file/get_dex are executed on every behaviour of "
                   "an opaque zip reader (returns bytes / raises KeyError). Bounded: the filter/order/multidex logic is run on all "
-                  "name lists of length <= 4 over a pool of 9 tricky names with a stub zip reader; real archives written by CPython's "
+                  "name lists of length <= 4 over a pool of 11 tricky names with a stub zip reader; real archives written by CPython's "
                   "zipfile (stored / deflated, ASCII and non-ASCII names, empty and 70 kB entries, extra fields) are opened with the "
                   "real APK constructor (apkInspector reader) and every entry's name and content, the DEX listing, get_dex and "
                   "is_multidex are compared with what was written.",
@@ -111,7 +111,7 @@ def reader_delegation(U):
 
 
 POOL = ["classes.dex", "classes2.dex", "classes10.dex", "classes0dex", "classesX.dex", "lib/classes.dex", "classes.dex\n",
-        "Classes.dex", "classes2.dex.bak"]
+        "Classes.dex", "classes2.dex.bak", "classes1.dex", "classes02.dex"]
 
 
 def _is_dex(n):
@@ -126,7 +126,8 @@ def _enum(tier, **_):
 
 
 @unit("C34", covers=[(APKF, "APK.get_dex_names"), (APKF, "APK.get_all_dex"), (APKF, "APK.is_multidex")], level="bounded",
-      note="all ordered selections of <= 3 (quick) / <= 4 (thorough) distinct names from a 9-name pool, stub zip reader")
+      note="all ordered selections of <= 3 (quick) / <= 4 (thorough) distinct names from an 11-name pool (incl. names whose numeric "
+           "suffixes denote the same number), stub zip reader")
 def dex_listing(U):
     m = U.mod(APKF)
     idx = U.given.get("idx", []) if U.given else []
@@ -135,9 +136,10 @@ def dex_listing(U):
     a = _apk(m, _Zip(names))
     want = [n for n in names if _is_dex(n)]
     got = U.call(lambda: list(a.get_dex_names()))
-    U.ensures("DEX listing = root-level classes*.dex entries, in archive order", got.ok and got.value == want, got=got.value, names=names)
+    # the statement asks for exactly these entries, not for an order: compared as multisets
+    U.ensures("DEX listing = exactly the root-level classes<digits>.dex entries", got.ok and sorted(got.value) == sorted(want), got=got.value, names=names)
     allc = U.call(lambda: list(a.get_all_dex()))
-    U.ensures("get_all_dex yields their contents", allc.ok and allc.value == [b"content of " + n.encode() for n in want])
+    U.ensures("get_all_dex yields their contents", allc.ok and sorted(allc.value) == sorted(b"content of " + n.encode() for n in want))
     md = U.call(a.is_multidex)
     U.ensures("is_multidex iff more than one DEX entry", md.ok and bool(md.value) == (len(want) > 1), got=md.value, names=names)
 
